@@ -551,6 +551,161 @@ def rule_r12(prog, res):
               'C07', c07.rule_r9, prog, Result)
 
 
+# ------------------------------------------------------------------ R13
+def rule_r13(prog, res):
+    res.rule('R13', 'a global element declared for a message is typed with '
+             'that message (name and type come from the same descriptor '
+             'attribute)')
+    x = prog.cls('spyne.interface.xml_schema._base:XmlSchema')
+    f = x.methods.get('add_missing_elements_for_methods')
+    if f is None:
+        raise AnalysisError('XmlSchema.add_missing_elements_for_methods',
+                            'not found')
+    import re
+    sets = sorted([c for c in calls_in(f.node) if isinstance(
+        c.func, ast.Attribute) and c.func.attr == 'set' and len(c.args) == 2
+        and isinstance(c.args[0], ast.Constant)], key=lambda c: c.lineno)
+    assigns = sorted([a for a in walk_no_defs(f.node) if isinstance(
+        a, ast.Assign) and len(a.targets) == 1 and isinstance(
+            a.targets[0], ast.Name)], key=lambda a: a.lineno)
+
+    def roots(expr_txt):
+        return set(re.findall(r'\b(in_message|out_message)\b', expr_txt))
+    n = 0
+    for c in sets:
+        if c.args[0].value != 'type':
+            continue
+        names = [d for d in sets if d.args[0].value == 'name' and
+                 d.lineno <= c.lineno and
+                 unparse(d.func.value) == unparse(c.func.value)]
+        if not names:
+            continue
+        nm = names[-1].args[1]
+        src = roots(unparse(nm))
+        if isinstance(nm, ast.Name):
+            prev = [a for a in assigns if a.targets[0].id == nm.id and
+                    a.lineno < names[-1].lineno]
+            # the assignments of the nearest group above (same message)
+            if prev:
+                last = roots(unparse(prev[-1].value))
+                src = last
+        n += 1
+        tr = roots(unparse(c.args[1]))
+        ok = len(src) == 1 and tr == src
+        where = '%s:%d' % (f.module.relpath, c.lineno)
+        res.ob('R13', where, 'element named after %s is typed with %s' % (
+            sorted(src), sorted(tr)), 'ok' if ok else 'VIOLATED')
+        if not ok:
+            res.finding('R13', 'XmlSchema.add_missing_elements_for_methods|'
+                        'name-type-mismatch|%s' % '-'.join(sorted(src)),
+                        where, 'the global element named after %s is '
+                        'declared with the type of %s: responses of bare '
+                        'methods whose result type differs from the argument '
+                        'type are invalid against the published schema' % (
+                            sorted(src), sorted(tr)))
+    res.floor('R13', 'typed global elements', n, 2)
+
+
+def rule_r14(prog, res):
+    from . import c01
+    from ..report import Result
+    txt = ('values that satisfy their constraints are written: presence is '
+           'decided by identity with None (C01-R9); offsets keep their sign '
+           '(C08-R4)')
+    res.share('R14', txt, 'C01', c01.rule_r9, prog, Result)
+    res.share('R14', txt, 'C08', c08.rule_r4, prog, Result)
+
+
+# ------------------------------------------------------------------ R15
+def _python_only_regex(frag):
+    """Constructs of Python's re that are not XSD regular expressions, found
+    in a literal fragment of a pattern (character classes skipped)."""
+    out = []
+    i, n, in_cls = 0, len(frag), False
+    while i < n:
+        ch = frag[i]
+        if ch == '\\' and i + 1 < n:
+            nxt = frag[i + 1]
+            if not in_cls and nxt in 'AZbBG':
+                out.append('\\' + nxt)
+            if not in_cls and nxt.isdigit() and nxt != '0':
+                out.append('backreference \\' + nxt)
+            i += 2
+            continue
+        if in_cls:
+            if ch == ']':
+                in_cls = False
+            i += 1
+            continue
+        if ch == '[':
+            in_cls = True
+            # a leading ] or ^] belongs to the class
+            if frag[i + 1:i + 2] == '^':
+                i += 1
+            if frag[i + 1:i + 2] == ']':
+                i += 1
+        elif ch == '(' and frag[i + 1:i + 2] == '?':
+            out.append(frag[i:i + 3])
+        elif ch == '^' and (i == 0 or frag[i - 1] in '(|'):
+            out.append('anchor ^')
+        elif ch == '$' and (i == n - 1 or frag[i + 1] in ')|'):
+            out.append('anchor $')
+        elif ch == '?' and i > 0 and frag[i - 1] in '*+?}':
+            out.append('lazy quantifier %s?' % frag[i - 1])
+        i += 1
+    return out
+
+
+def rule_r15(prog, res):
+    res.rule('R15', 'the lexical patterns the model layer declares are '
+             'published verbatim as xs:pattern, so they stay inside the '
+             'syntax XSD regular expressions share with Python')
+    n_pat = 0
+    for mod in prog.modules.values():
+        if not mod.relpath.startswith('spyne/model/'):
+            continue
+        roots = []
+        for node in ast.walk(mod.tree):
+            if isinstance(node, ast.Call):
+                for kw in node.keywords:
+                    if kw.arg in ('pattern', 'unicode_pattern', 'upattern') \
+                            and not (isinstance(kw.value, ast.Constant) and
+                                     kw.value.value is None):
+                        roots.append(kw.value)
+        seen, todo, lits = set(), list(roots), []
+        while todo:
+            e = todo.pop()
+            for x in ast.walk(e):
+                if isinstance(x, ast.Constant) and isinstance(x.value, str):
+                    lits.append(x)
+                elif isinstance(x, ast.Name) and x.id not in seen:
+                    seen.add(x.id)
+                    if x.id in mod.consts:
+                        todo.append(mod.consts[x.id])
+                    elif x.id in mod.functions:
+                        todo.extend(mod.functions[x.id].node.body)
+        if roots:
+            n_pat += len(roots)
+        for lit in lits:
+            bad = _python_only_regex(lit.value)
+            where = '%s:%d' % (mod.relpath, lit.lineno)
+            if bad:
+                res.ob('R15', where, 'pattern fragment %r uses %s' % (
+                    lit.value[:40], bad), 'VIOLATED')
+                res.finding('R15', '%s|python-only-regex|%s' % (
+                    mod.relpath, bad[0]), where, 'the published pattern '
+                    'fragment %r uses %s, which is Python syntax: in an '
+                    'xs:pattern facet anchors are literal characters and '
+                    '(?...) groups are not a regular expression, so the '
+                    'schema rejects every valid value or does not compile' %
+                    (lit.value[:50], ', '.join(bad)))
+        if lits:
+            res.ob('R15', '%s:1' % mod.relpath, '%d literal fragments of %d '
+                   'published patterns are in the common syntax' % (
+                       len(lits), len(roots)), 'ok')
+    res.floor('R15', 'published pattern declarations', n_pat, 8)
+
+
 def run(prog, res, tier):
     res.run_rule(rule_r1, prog, res)
     res.run_rule(rule_r2, prog, res)
@@ -564,12 +719,31 @@ def run(prog, res, tier):
     res.run_rule(rule_r10, prog, res)
     res.run_rule(rule_r11, prog, res)
     res.run_rule(rule_r12, prog, res)
+    res.run_rule(rule_r13, prog, res)
+    res.run_rule(rule_r14, prog, res)
+    res.run_rule(rule_r15, prog, res)
 
 
 _M = 'spyne/interface/xml_schema/model.py'
 _I = 'spyne/interface/_base.py'
 
 MUTANTS = [
+    Mutant('uuid-pattern-anchored', 'R15', 'fire',
+           'spyne/model/primitive/string.py',
+           lambda src: src.replace(
+               'UUID_PATTERN = "%(x)s{8}-%(x)s{4}-%(x)s{4}-%(x)s{4}-%(x)s{12}"',
+               'UUID_PATTERN = "^%(x)s{8}-%(x)s{4}-%(x)s{4}-%(x)s{4}-%(x)s{12}$"'),
+           'python-only-regex'),
+    Mutant('mime-pattern-noncapturing-group', 'R15', 'fire',
+           'spyne/model/primitive/string.py',
+           lambda src: src.replace('x-(" + token', 'x-(?:" + token'),
+           'python-only-regex'),
+    Mutant('out-element-typed-with-in-message', 'R13', 'fire',
+           'spyne/interface/xml_schema/_base.py',
+           in_func('XmlSchema.add_missing_elements_for_methods',
+                   "element.set('type', method.out_message \\",
+                   "element.set('type', method.in_message \\"),
+           'name-type-mismatch'),
     Mutant('decimal-length-exclusive', 'R11', 'fire',
            'spyne/model/primitive/number.py',
            in_func('Decimal.validate_string',
